@@ -122,7 +122,8 @@ def run_fw(pid, tier, seed, replay, ctx, gens, tags, mech=None, budget=None):
             elif ws[0] == "mon" and ws[1] == pid and ws[2] == "FAIL":
                 cid = ws[3]
                 msg = " ".join(ws[4:])
-                key = f"{pid}:{re.sub(r'call [0-9]+', 'call N', msg)}"
+                # one key per kind of failure: numbers (call index, machine ids, values) are abstracted
+                key = f"{pid}:{re.sub(r'[0-9]+', 'N', msg)}"
                 mons.append((key, f"monitor {pid} failed on the implementation's trace: {msg}\n" + blocks.get(cid, "")))
             elif ws[0] == "badblocks":
                 dis.append("driver could not parse " + ws[1] + " case blocks of " + name)
